@@ -523,7 +523,7 @@ func elemType(t types.Type) types.Type {
 func (fv *FuncVC) sliceElem(s Val, i string, st *State) Val {
 	et := elemType(s.GoT)
 	es := fv.th.sortOf(et)
-	h := fv.declSliceHeap(es)
+	h := fv.declSliceHeapT(et)
 	v := Val{sx("select", sx("select", fv.getHeap(st, h), sx("sl_ref", s.T)), i), es, et}
 	return v
 }
@@ -641,7 +641,7 @@ func (fv *FuncVC) evalSliceExpr(x *ast.SliceExpr, st *State) Val {
 		// copy model: a fresh backing array holding the selected window (aliasing dropped)
 		et := elemType(base.GoT)
 		es := fv.th.sortOf(et)
-		h := fv.declSliceHeap(es)
+		h := fv.declSliceHeapT(et)
 		r := fv.freshRef(st, "subslice")
 		arr := fv.th.freshConst("subarr", arraySort(SInt, es))
 		H := fv.getHeap(st, h)
@@ -752,7 +752,7 @@ func (fv *FuncVC) evalComposite(x *ast.CompositeLit, st *State, addr bool) Val {
 	case *types.Slice, *types.Array:
 		et := elemType(t)
 		es := fv.th.sortOf(et)
-		h := fv.declSliceHeap(es)
+		h := fv.declSliceHeapT(et)
 		r := fv.freshRef(st, "lit")
 		arr := fv.th.constArr(SInt, es, fv.th.zero(et))
 		n := 0
@@ -806,7 +806,7 @@ func (fv *FuncVC) makeMap(mt *types.Map, st *State) Val {
 func (fv *FuncVC) makeSlice(t types.Type, n string, st *State) Val {
 	et := elemType(t)
 	es := fv.th.sortOf(et)
-	h := fv.declSliceHeap(es)
+	h := fv.declSliceHeapT(et)
 	r := fv.freshRef(st, "make")
 	arr := fv.th.constArr(SInt, es, fv.th.zero(et))
 	fv.setHeap(st, h, sx("store", fv.getHeap(st, h), r, arr))
